@@ -136,10 +136,195 @@ def gen_groups(r, n):
     return G
 
 
+def dyadic_unit4(r):
+    """unit quaternions with dyadic components (exact inner products): permutations / signs of (1,0,0,0), (1/2,1/2,1/2,1/2), (3/5,4/5,0,0)-like are not dyadic, so only the first two families"""
+    if r.random() < 0.5:
+        q = [0.0, 0.0, 0.0, 0.0]; q[r.randrange(4)] = r.choice([-1.0, 1.0]); return q
+    return [r.choice([-0.5, 0.5]) for _ in range(4)]
+
+
+
+# ---- real single-component variables of every kind: colvar::dist2 / dist2_lgrad / dist2_rgrad / wrap ----
+SCALAR_KINDS = ["distance", "eulerTheta", "polarTheta", "tilt", "orientationAngle"]
+PERIODIC_KINDS = ["dihedral", "spinAngle", "eulerPhi", "eulerPsi", "polarPhi", "dihedralSum"]       # period 360, wrapAround configurable
+# dihedralCoeff2: a periodic component with coefficient 2 makes a NON-periodic variable (documented: "will not be treated as periodic")
+WRAP_CENTRES = [0.0, 90.0, -180.0, 180.0, 45.5, -77.25]
+SCRIPTED_PERIODS = [360.0, 2.0, 8.0]
+
+
+def pywrap(x, c, P):
+    return x - math.floor((x - c) / P + 0.5) * P
+
+
+class CGroup:
+    """one pair of values on one real variable: base, swapped, identical, images, wrapped arguments, wrap calls, finite differences in both arguments"""
+    def __init__(self, r):
+        m = r.random()
+        self.P = None; self.c = 0.0; self.n = 1; self.manifold = False
+        if m < 0.15:
+            self.kind = r.choice(SCALAR_KINDS + ["dihedralCoeff2"]); self.cls = "scalar"
+            if self.kind == "dihedralCoeff2":
+                self.c = r.choice(WRAP_CENTRES)
+        elif m < 0.50:
+            self.kind = r.choice(PERIODIC_KINDS); self.cls = "periodic"; self.P = 360.0; self.c = r.choice(WRAP_CENTRES)
+        elif m < 0.65:
+            self.P = r.choice(SCRIPTED_PERIODS); self.kind = "scripted:%r" % self.P; self.cls = "periodic"
+            self.c = r.choice([0.0, self.P / 2, -self.P / 4, self.P / 8])
+        elif m < 0.75:
+            self.kind = "distanceDir"; self.cls = "unit"; self.n = 3; self.manifold = True
+        elif m < 0.85:
+            self.kind = "orientation"; self.cls = "quat"; self.n = 4; self.manifold = True
+        elif m < 0.93:
+            self.kind = "cartesian"; self.cls = "vector"; self.n = 6
+        else:
+            self.kind = "distancePairs"; self.cls = "vector"; self.n = 4
+        P = self.P
+        if self.cls == "scalar":
+            x1 = [V.dyadic(r, -50, 50)]; x2 = [V.dyadic(r, -50, 50)]
+        elif self.cls == "periodic":
+            x2 = [V.dyadic(r, -3, 3, bits=8) * P]
+            mm = r.random()
+            if mm < 0.25:
+                x1 = [x2[0] + P / 2 * r.choice([-1, 1]) + r.randint(-2, 2) * P]
+            elif mm < 0.4:
+                x1 = [x2[0] + r.randint(-3, 3) * P]
+            else:
+                x1 = [V.dyadic(r, -3, 3, bits=8) * P]
+        elif self.cls == "unit":
+            x1, x2 = unit(r, 3), unit(r, 3)
+        elif self.cls == "quat":
+            x1, x2 = unit(r, 4), unit(r, 4)
+        else:
+            x1 = [V.dyadic(r, -9, 9) for _ in range(self.n)]; x2 = [V.dyadic(r, -9, 9) for _ in range(self.n)]
+        self.x1, self.x2 = x1, x2
+        self.lines = [self.cd(x1, x2), self.cd(x2, x1), self.cd(x1, x1)]
+        self.inv = []; self.fd1 = None; self.fd2 = None; self.wr = None
+        if self.cls == "periodic":
+            self.inv.append(len(self.lines)); self.lines.append(self.cd([x1[0] + r.randint(-3, 3) * P], [x2[0] + r.randint(-3, 3) * P]))
+            # wrapped arguments (python's own wrap; the implementation's wrap is checked on the CW lines)
+            self.inv.append(len(self.lines)); self.lines.append(self.cd([pywrap(x1[0], self.c, P)], [pywrap(x2[0], self.c, P)]))
+            d = (x1[0] - x2[0]) / P
+            self.oncut = abs(d - round(d)) >= 0.49
+        else:
+            self.oncut = False
+        if self.cls == "quat":
+            self.inv.append(len(self.lines)); self.lines.append(self.cd(x1, [-a for a in x2]))
+            cc = sum(a * b for a, b in zip(x1, x2))
+            self.oncut = not (0.02 < abs(cc) < 0.999)
+        # wrap calls
+        self.wr = len(self.lines)
+        xw = [x1[0] + r.randint(-2, 2) * P] if self.cls == "periodic" else x1
+        if self.cls == "periodic" and r.random() < 0.3:
+            xw = [self.c + P / 2 * r.choice([-1, 1]) + r.randint(-2, 2) * P]
+        self.xw = xw
+        self.lines.append("CW %s %s %d %s" % (self.kind, hx(self.c), self.n, " ".join(map(hx, xw))))
+        # finite differences in the first and in the second argument
+        if not self.oncut:
+            h = 1e-4 if self.manifold else (2.0 ** -9 * P if P else 2.0 ** -6)
+            for which in (1, 2):
+                base = x1 if which == 1 else x2
+                if self.manifold:
+                    e = tangent(r, base); xp, xm = move_on_sphere(base, e, h), move_on_sphere(base, e, -h)
+                else:
+                    e = [float(r.randint(-2, 2)) for _ in base]
+                    if not any(e):
+                        e[0] = 1.0
+                    xp = [a + h * b for a, b in zip(base, e)]; xm = [a - h * b for a, b in zip(base, e)]
+                j = len(self.lines)
+                if which == 1:
+                    self.lines += [self.cd(xp, x2), self.cd(xm, x2)]; self.fd1 = (j, e, h)
+                else:
+                    self.lines += [self.cd(x1, xp), self.cd(x1, xm)]; self.fd2 = (j, e, h)
+
+    def cd(self, a, b):
+        return "CD %s %s %d %s %s" % (self.kind, hx(self.c), self.n, " ".join(map(hx, a)), " ".join(map(hx, b)))
+
+
+def oracle_cgroup(g, impl, run):
+    """metric relations on the implementation's own outputs for one real variable"""
+    outs = [parse(impl[g.off + i]) for i in range(len(g.lines))]
+    rep = {"kind": "unit", "lines": g.lines, "impl": impl[g.off:g.off + len(g.lines)]}
+    sigk = g.kind.split(":")[0]
+    n = g.n
+    if any(o is None for o in outs) or any(len(outs[i]) != 1 + 2 * n for i in range(len(outs)) if i != g.wr) or len(outs[g.wr]) != n:
+        run.violation("comp:%s:shape" % sigk, "no numeric result / wrong shape for %s: %s" % (g.lines[0], impl[g.off]), rep)
+        return
+    base, sw, same = outs[0], outs[1], outs[2]
+    d2, lg, rg = base[0], base[1:1 + n], base[1 + n:]
+    tolm = 1e-8
+    if not (d2 >= 0):
+        run.violation("comp:%s:nonneg" % sigk, "dist2 = %r is negative for %s" % (d2, g.lines[0]), rep)
+    if not close(d2, sw[0], tolm):
+        run.violation("comp:%s:sym" % sigk, "%s: dist2(x1,x2) = %r but dist2(x2,x1) = %r (%s)" % (g.kind, d2, sw[0], g.lines[0]), rep)
+    if not abs(same[0]) <= 1e-12:
+        run.violation("comp:%s:self" % sigk, "%s: dist2(x,x) = %r is not zero (%s)" % (g.kind, same[0], g.lines[2]), rep)
+    # the gradient with respect to the second argument is the left gradient with the arguments exchanged
+    if not all(close(a, b, tolm) for a, b in zip(rg, sw[1:1 + n])):
+        run.violation("comp:%s:rgrad" % sigk, "%s: dist2_rgrad(x1,x2) = %r but dist2_lgrad(x2,x1) = %r (%s)" % (g.kind, rg, sw[1:1 + n], g.lines[0]), rep)
+    for j in g.inv:
+        if not close(d2, outs[j][0], tolm):
+            run.violation("comp:%s:image" % sigk, "%s: dist2 changes from %r to %r under a period image / wrapping of the arguments / sign flip: %s vs %s" % (g.kind, d2, outs[j][0], g.lines[0], g.lines[j]), rep)
+    # wrap
+    y = outs[g.wr]
+    if g.cls == "periodic":
+        k = (g.xw[0] - y[0]) / g.P
+        if not (g.c - g.P / 2 <= y[0] < g.c + g.P / 2) or abs(k - round(k)) > 1e-9:
+            run.violation("comp:%s:wrap" % sigk, "%s with period %r and wrapAround %r: wrap(%r) = %r is not the equivalent value in [c-P/2, c+P/2)" % (g.kind, g.P, g.c, g.xw[0], y[0]), rep)
+    elif y != g.xw:
+        run.violation("comp:%s:wrap" % sigk, "%s is not periodic but wrap(%r) = %r" % (g.kind, g.xw, y), rep)
+    for which, fd in ((1, g.fd1), (2, g.fd2)):
+        if not fd:
+            continue
+        j, e, h = fd
+        fdv = (outs[j][0] - outs[j + 1][0]) / (2 * h)
+        an = sum(a * b for a, b in zip(lg if which == 1 else rg, e))
+        tol = 1e-5 if g.manifold else 1e-8
+        if not (abs(fdv - an) <= tol * max(1.0, abs(fdv), abs(an))):
+            run.violation("comp:%s:fd%d" % (sigk, which),
+                          "%s: reported %s gradient along %s is %r but the finite difference of dist2 in argument %d is %r (%s)"
+                          % (g.kind, "left" if which == 1 else "right", e, an, which, fdv, g.lines[0]), rep)
+
+
+class OMGroup:
+    """OPES kernel merge on a periodic variable: base and period images of either kernel centre"""
+    def __init__(self, r):
+        self.P = r.choice([360.0, 2.0, 8.0]); self.c = V.dyadic(r, -4, 4, bits=2)
+        P = self.P
+        self.h1 = V.dyadic(r, 0.25, 4, bits=4); self.h2 = V.dyadic(r, 0.25, 4, bits=4)
+        self.k1 = V.dyadic(r, -1, 1, bits=8) * P; self.k2 = V.dyadic(r, -1, 1, bits=8) * P
+        if r.random() < 0.3:     # centres on either side of the wrap boundary
+            self.k1 = self.c + P / 2 - V.dyadic(r, 0, 0.125, bits=8) * P; self.k2 = self.c - P / 2 + V.dyadic(r, 0, 0.125, bits=8) * P
+        s1 = V.dyadic(r, 0.125, 2, bits=4); s2 = V.dyadic(r, 0.125, 2, bits=4)
+        f = lambda k1, k2: "OM %s %s %s %s %s %s %s %s" % (hx(P), hx(self.c), hx(self.h1), hx(k1), hx(s1), hx(self.h2), hx(k2), hx(s2))
+        self.lines = [f(self.k1, self.k2), f(self.k1 + r.randint(-2, 2) * P, self.k2), f(self.k1, self.k2 + r.randint(-2, 2) * P)]
+
+
+def oracle_omgroup(g, impl, run):
+    outs = [parse(impl[g.off + i]) for i in range(3)]
+    rep = {"kind": "unit", "lines": g.lines, "impl": impl[g.off:g.off + 3]}
+    if any(o is None or len(o) != 2 for o in outs):
+        run.violation("opes:shape", "no numeric result for %s: %s" % (g.lines[0], impl[g.off]), rep)
+        return
+    P, c = g.P, g.c
+    d = g.k1 - g.k2; img = d - math.floor(d / P + 0.5) * P
+    if abs(abs(img) - P / 2) < 1e-9 * P:
+        return      # the two centres are exactly half a period apart: which image is "closest" is ambiguous
+    mean = (g.h1 * (g.k2 + img) + g.h2 * g.k2) / (g.h1 + g.h2)
+    y = outs[0][0]
+    k = (mean - y) / P
+    if not (c - P / 2 <= y < c + P / 2) or abs(k - round(k)) > 1e-9:
+        run.violation("opes:merge-centre", "merged OPES kernel centre of %r (height %r) and %r (height %r), period %r wrapAround %r, is %r: not the value of [c-P/2,c+P/2) "
+                      "equivalent to the height-weighted mean %r of the closest images" % (g.k1, g.h1, g.k2, g.h2, P, c, y, mean), rep)
+    for j in (1, 2):
+        dd = (outs[j][0] - y) / P
+        if abs(dd - round(dd)) > 1e-9 or (abs(outs[j][0] - y) > 1e-9 * P and abs(abs(y - c) - P / 2) > 1e-9 * P):
+            run.violation("opes:merge-image", "merged OPES kernel centre changes from %r to %r when a kernel centre is replaced by a periodic image: %s vs %s" % (y, outs[j][0], g.lines[0], g.lines[j]), rep)
+
+
 def gen_misc(r, n):
     L = []
     for k in range(n):
-        kind = r.choice(["WRAP", "WRAP", "ISC", "IV3", "IUV", "IVEC"])
+        kind = r.choice(["WRAP", "WRAP", "ISC", "IV3", "IUV", "IVEC", "IQ", "IQ", "ACUV", "ACQ", "INN", "MR", "MR"])
         lam = r.choice([0.0, 1.0, 0.5, 0.25, V.dyadic(r, 0, 1, bits=6)])
         if kind == "WRAP":
             P = r.choice([360.0, 2.0, 1.0, 8.0, 0.5, 6.0]); c = V.dyadic(r, -4, 4, bits=2)
@@ -151,11 +336,102 @@ def gen_misc(r, n):
         elif kind == "IV3":
             L.append("IV3 %s %s %s" % (" ".join(hx(V.dyadic(r, -9, 9)) for _ in range(3)), " ".join(hx(V.dyadic(r, -9, 9)) for _ in range(3)), hx(lam)))
         elif kind == "IUV":
-            L.append("IUV %s %s %s" % (" ".join(map(hx, unit(r, 3))), " ".join(map(hx, unit(r, 3))), hx(lam)))
+            a = unit(r, 3)
+            b = [-x for x in a] if r.random() < 0.15 else unit(r, 3)     # antipodal end points: the documented undefined case at 1/2
+            L.append("IUV %s %s %s" % (" ".join(map(hx, a)), " ".join(map(hx, b)), hx(lam)))
+        elif kind == "IQ":
+            a = r.choice([unit(r, 4), dyadic_unit4(r)])
+            m = r.random()
+            b = [-x for x in a] if m < 0.2 else (list(a) if m < 0.3 else r.choice([unit(r, 4), dyadic_unit4(r)]))   # opposite (equivalent) / identical / generic
+            L.append("IQ %s %s %s" % (" ".join(map(hx, a)), " ".join(map(hx, b)), hx(lam)))
+        elif kind == "ACUV":
+            L.append("AC UV %s" % " ".join(hx(V.dyadic(r, -9, 9)) for _ in range(3)))
+        elif kind == "ACQ":
+            L.append("AC Q %s" % " ".join(hx(V.dyadic(r, -9, 9)) for _ in range(4)))
+        elif kind == "INN":
+            t = r.choice(["UV", "V3", "Q", "VEC"])
+            if t == "UV":
+                L.append("INN UV %s %s" % (" ".join(map(hx, unit(r, 3))), " ".join(map(hx, unit(r, 3)))))
+            elif t == "V3":
+                L.append("INN V3 %s %s" % (" ".join(hx(V.dyadic(r, -9, 9)) for _ in range(3)), " ".join(hx(V.dyadic(r, -9, 9)) for _ in range(3))))
+            elif t == "Q":
+                L.append("INN Q %s %s" % (" ".join(map(hx, unit(r, 4))), " ".join(map(hx, unit(r, 4)))))
+            else:
+                nn = r.randint(1, 5)
+                L.append("INN VEC %d %s %s" % (nn, " ".join(hx(V.dyadic(r, -9, 9)) for _ in range(nn)), " ".join(hx(V.dyadic(r, -9, 9)) for _ in range(nn))))
+        elif kind == "MR":
+            # moving restraint centre on a periodic variable: end points possibly several periods apart / outside the wrap interval
+            P = r.choice([360.0, 2.0, 8.0, 0.5]); c = V.dyadic(r, -4, 4, bits=2)
+            x0 = V.dyadic(r, -3, 3, bits=6) * P; x1 = V.dyadic(r, -3, 3, bits=6) * P
+            lams = [0.0, 1.0] + [V.dyadic(r, 0, 1, bits=5) for _ in range(3)]
+            L.append("MR %s %s %s %s %s" % (hx(P), hx(c), hx(x0), hx(x1), " ".join(map(hx, lams))))
         else:
             nn = r.randint(1, 5)
             L.append("IVEC %d %s %s %s" % (nn, " ".join(hx(V.dyadic(r, -9, 9)) for _ in range(nn)), " ".join(hx(V.dyadic(r, -9, 9)) for _ in range(nn)), hx(lam)))
     return L
+
+
+def gen_obj(r, n):
+    """histories on one periodic variable: modifications of period / wrapping centre (modifycvcs) interleaved
+    with colvar::wrap and colvar::dist2 calls; values aimed at the edges of the interval in force"""
+    L = []
+    periods = [360.0, 2.0, 1.0, 8.0, 0.5, 6.0, 25.0, 10.0]
+    for k in range(n):
+        P = r.choice(periods); c = V.dyadic(r, -4, 4, bits=2)
+        w = ["OBJ", hx(P), hx(c)]
+        for j in range(r.randint(2, 7)):
+            m = r.random()
+            if m < 0.35:
+                P = r.choice(periods); c = V.dyadic(r, -4, 4, bits=2)
+                w += ["M", hx(P), hx(c)]
+            elif m < 0.75:
+                x = c + P / 2 * r.choice([-1, 1]) + r.randint(-2, 2) * P if r.random() < 0.3 else c + V.dyadic(r, -3, 3, bits=8) * P
+                w += ["W", hx(x)]
+            elif m < 0.88:
+                w += ["D", hx(V.dyadic(r, -9, 9) * P / 4), hx(V.dyadic(r, -9, 9) * P / 4)]
+            else:
+                w += ["X", hx(V.dyadic(r, -9, 9) * P / 4), hx(V.dyadic(r, -9, 9) * P / 4)]
+        if "M" not in w:
+            P = r.choice(periods); c = V.dyadic(r, -4, 4, bits=2)
+            w += ["M", hx(P), hx(c), "W", hx(c + V.dyadic(r, -3, 3, bits=8) * P)]
+        if "W" not in w and "D" not in w and "X" not in w:
+            w += ["W", hx(c + V.dyadic(r, -3, 3, bits=8) * P)]
+        L.append(" ".join(w))
+    return L
+
+
+def oracle_obj(line, out):
+    """on the implementation's own outputs: every wrap result lies in the one-period interval around the centre IN FORCE
+    at the time of the call, on a value equivalent under the period in force; dist2 = (shortest image)^2, grad = 2*image"""
+    w = line.split(); o = parse(out)
+    if o is None:
+        return "no numeric result (%s)" % out
+    P, c = float.fromhex(w[1]), float.fromhex(w[2])
+    i = 3; k = 0
+    while i < len(w):
+        if w[i] == "M":
+            P, c = float.fromhex(w[i + 1]), float.fromhex(w[i + 2]); i += 3
+        elif w[i] == "W":
+            x = float.fromhex(w[i + 1]); i += 2
+            if k >= len(o):
+                return "missing output"
+            y = o[k]; k += 1
+            n = (x - y) / P
+            if not (c - P / 2 <= y < c + P / 2) or abs(n - round(n)) > 1e-9:
+                return ("after the history %s: wrap(%r) returned %r, which is not the equivalent value in [c-P/2, c+P/2) "
+                        "for the period %r and centre %r in force" % (" ".join(w[:i - 2]), x, y, P, c))
+        else:
+            wrapped = w[i] == "X"
+            x1, x2 = float.fromhex(w[i + 1]), float.fromhex(w[i + 2]); i += 3
+            if k + 1 >= len(o):
+                return "missing output"
+            d2, g = o[k], o[k + 1]; k += 2
+            d = x1 - x2
+            img = d - math.floor(d / P + 0.5) * P
+            if not close(d2, img * img, 1e-8) or not close(g, 2 * img, 1e-8):
+                return ("after the history %s: %s(%r,%r) = %r, gradient %r; the shortest image under the period %r in force is %r"
+                        % (" ".join(w[:i - 3]), "dist2 of the wrapped values of " if wrapped else "dist2", x1, x2, d2, g, P, img))
+    return None
 
 
 def oracle_misc(line, out):
@@ -168,17 +444,58 @@ def oracle_misc(line, out):
         n = (x - y) / P
         if not (c - P / 2 <= y < c + P / 2) or abs(n - round(n)) > 1e-9:
             return "wrap(%r) with period %r around %r returned %r: not the equivalent value in [c-P/2, c+P/2)" % (x, P, c, y)
-    elif w[0] == "IUV":
+    elif w[0] in ("IUV", "IQ"):
+        nn = 3 if w[0] == "IUV" else 4
         lam = float.fromhex(w[-1])
-        x1 = [float.fromhex(t) for t in w[1:4]]; x2 = [float.fromhex(t) for t in w[4:7]]
-        lin = [(1 - lam) * a + lam * b for a, b in zip(x1, x2)]
-        if math.sqrt(sum(a * a for a in lin)) > 1e-3:
+        x1 = [float.fromhex(t) for t in w[1:1 + nn]]; x2 = [float.fromhex(t) for t in w[1 + nn:1 + 2 * nn]]
+        val, err = o[:nn], o[nn]
+        what = "unit vector" if nn == 3 else "quaternion"
+        if err == 0.0:
+            # no documented "undefined" error was raised: the result must be on the manifold
+            if any(math.isnan(a) for a in val) or not close(sum(a * a for a in val), 1.0):
+                return "interpolation between the %ss %r and %r at lambda=%r returned %r without raising the undefined-result error: not on the manifold" % (what, x1, x2, lam, val)
+            # end points: the value itself; for quaternions q and -q are the same point of the manifold (the tie still pins which one)
+            same = lambda u, v: all(close(a, b) for a, b in zip(u, v)) or (nn == 4 and all(close(a, -b) for a, b in zip(u, v)))
+            if lam == 0.0 and not same(val, x1):
+                return "interpolation between %r and %r at lambda=0 returned %r, not the first end point" % (x1, x2, val)
+            if lam == 1.0 and not same(val, x2):
+                return "interpolation between %r and %r at lambda=1 returned %r, not the second end point" % (x1, x2, val)
+        else:
+            lin = [(1 - lam) * a + lam * b for a, b in zip(x1, x2)]
+            if math.sqrt(sum(a * a for a in lin)) > 1e-3:
+                return "interpolation between %r and %r at lambda=%r raised the undefined-result error although the combination %r is far from zero" % (x1, x2, lam, lin)
+    elif w[0] in ("ISC", "IV3", "IVEC"):
+        v = [float.fromhex(t) for t in (w[2:] if w[0] == "IVEC" else w[1:])]
+        lam = v[-1]; nn = (len(v) - 1) // 2
+        x1, x2 = v[:nn], v[nn:2 * nn]
+        if lam == 0.0 and not all(close(a, b) for a, b in zip(o, x1)):
+            return "interpolation between %r and %r at lambda=0 returned %r, not the first end point" % (x1, x2, o)
+        if lam == 1.0 and not all(close(a, b) for a, b in zip(o, x2)):
+            return "interpolation between %r and %r at lambda=1 returned %r, not the second end point" % (x1, x2, o)
+    elif w[0] == "AC":
+        x = [float.fromhex(t) for t in w[2:]]
+        nrm = math.sqrt(sum(a * a for a in x))
+        if nrm > 0:
             if not close(sum(a * a for a in o), 1.0):
-                return "interpolated unit vector %r is not normalised" % o
-            if lam == 0.0 and not all(close(a, b) for a, b in zip(o, x1)):
-                return "interpolation at lambda=0 does not return the first end point"
-            if lam == 1.0 and not all(close(a, b) for a, b in zip(o, x2)):
-                return "interpolation at lambda=1 does not return the second end point"
+                return "apply_constraints(%r) = %r is not normalised" % (x, o)
+            if not all(close(a, b / nrm) for a, b in zip(o, x)):
+                return "apply_constraints(%r) = %r is not the value divided by its norm" % (x, o)
+    elif w[0] == "INN":
+        v = [float.fromhex(t) for t in (w[3:] if w[1] == "VEC" else w[2:])]
+        a, b = v[:len(v) // 2], v[len(v) // 2:]
+        if not close(o[0], sum(x * y for x, y in zip(a, b))) or not close(o[1], sum(x * x for x in a)):
+            return "inner product / squared norm of %r and %r reported as %r" % (a, b, o)
+        if w[1] in ("UV", "Q") and abs(o[0]) > 1 + 1e-12:
+            return "inner product of two values on the unit sphere is %r" % o[0]
+    elif w[0] == "MR":
+        P, c, x0, x1 = [float.fromhex(t) for t in w[1:5]]
+        lams = [float.fromhex(t) for t in w[5:]]
+        for lam, y in zip(lams, o):
+            lin = (1 - lam) * x0 + lam * x1
+            n = (lin - y) / P
+            if not (c - P / 2 <= y < c + P / 2) or abs(n - round(n)) > 1e-9:
+                return ("moving restraint between centres %r and %r (period %r, wrapAround %r): the centre at lambda=%r is %r, "
+                        "not the value of [c-P/2, c+P/2) equivalent to the interpolated centre %r" % (x0, x1, P, c, lam, y, lin))
     return None
 
 
@@ -192,11 +509,16 @@ def check(run):
     quick = run.tier == "quick"
     run.cov["rule"] = ("groups of related calls to dist2/dist2_grad (colvarvalue for scalar, 3-vector, unit vector, quaternion, vector; real colvar objects for "
                        "periodic distanceZ and distanceVec with/without forceNoPBC and cell): base, swapped, identical arguments, +/-h along a (tangent) direction, "
-                       "period/sign/lattice images; ~30% of periodic cases exactly on the half-period cut; plus wrap and interpolate calls. "
-                       "distinct = distinct base line; non-trivial = arguments differ and (for periodic/cell cases) the nearest image is not the identity image or the case is on the cut")
+                       "period/sign/lattice images; ~30% of periodic cases exactly on the half-period cut; component groups on real single-component variables of 17 kinds "
+                       "(distance, dihedral, spinAngle, eulerPhi/Psi/Theta, polarPhi/Theta, tilt, orientationAngle, distanceDir, orientation, cartesian, distancePairs, a periodic scripted "
+                       "variable, a coefficient-2 dihedral, a sum of two dihedrals; 6 wrapping centres): dist2/lgrad/rgrad base, swapped, identical, period image, wrapped arguments, sign flip, "
+                       "colvar::wrap (30% on the interval edge), +/-h in each argument; OPES kernel-merge groups (base + period image of either centre, 30% across the wrap boundary); "
+                       "wrap, interpolate (all types incl. quaternions: 20% opposite, 10% identical end points; 15% antipodal unit vectors), apply_constraints, inner/norm2, moving-restraint centres, "
+                       "and histories on one periodic variable object (modifycvcs changes of period/wrapAround interleaved with colvar::wrap, colvar::dist2 and wrap-then-dist2 calls). "
+                       "distinct = distinct base line; non-trivial = arguments differ")
     run.assumptions += ["theorems are about the R instance of the model; the tie runs the float instance and compares with relative tolerance 1e-9 (acos, sqrt) and exactly for dyadic cases",
-                        "colvar::dist2_rgrad is not used by any bias and is outside the property (gradient with respect to the first argument)",
-                        "gradient-is-derivative is proved for scalar, periodic scalar (off the cut), 3-vector; for unit vectors and quaternions it is checked by finite differences along tangent directions only (T2)"]
+                        "the model is of the code after the fix: commits of C18 (fix-C18: dist2_rgrad, wrap of spinAngle/eulerPhi/eulerPsi, periodic scripted distance, q/-q interpolation NaN)",
+                        "NaN is outside the real-number model: the 0/0 of interpolating q and -q at 1/2 is seen by the oracle and the float tie only"]
     st = V.standard_start(run, PROP, "coq/C18/Extract_C18.v", "props/C18/driver.ml", {"c18unit": ["props/C18/unit.cpp"]})
     if st is None:
         return
@@ -204,8 +526,11 @@ def check(run):
     unitp = exes["c18unit"]
     groups = gen_groups(r, 700 if quick else 20000)
     misc = gen_misc(r, 300 if quick else 8000)
+    misc += gen_obj(r, 150 if quick else 3000)
+    cgroups = [CGroup(r) for _ in range(500 if quick else 15000)]
+    omgroups = [OMGroup(r) for _ in range(60 if quick else 1500)]
     lines = []
-    for g in groups:
+    for g in groups + cgroups + omgroups:
         g.off = len(lines)
         lines += g.lines
     moff = len(lines)
@@ -219,8 +544,6 @@ def check(run):
     # correspondence: every line
     for i, (l, a) in enumerate(zip(lines, impl)):
         b = mod[i] if i < len(mod) else "<none>"
-        if l.split()[0] == "IQ":
-            continue
         pa, pb = parse(a), parse(b)
         if pa is None or pb is None or len(pa) != len(pb) or not all(close(x, y) or (math.isnan(x) and math.isnan(y)) for x, y in zip(pa, pb)):
             run.mismatch("value:" + l.split()[0], l, a, b)
@@ -244,6 +567,10 @@ def check(run):
             run.violation("metric:%s:self" % sigk, "dist2(x,x) = %r is not zero for %s" % (same[0], g.lines[2]), rep)
         if nontriv and g.kind in ("SC", "V3", "VEC") and not d2 > 0:
             run.violation("metric:%s:zero" % sigk, "dist2 = 0 for different values %s" % g.lines[0], rep)
+        if g.kind == "DV":
+            # gradient with respect to the second argument = left gradient with the arguments exchanged
+            if len(base) != 7 or len(sw) != 7 or not all(close(a, b, 1e-8) for a, b in zip(base[4:7], sw[1:4])):
+                run.violation("metric:%s:rgrad" % sigk, "distanceVec: dist2_rgrad(x1,x2) = %r but dist2_lgrad(x2,x1) = %r for %s" % (base[4:7], sw[1:4], g.lines[0]), rep)
         for j in g.inv:
             o = parse(impl[g.off + j])
             if o is None or not close(d2, o[0], 1e-8):
@@ -251,7 +578,7 @@ def check(run):
         if g.fd:
             j, e, h = g.fd
             p, m = parse(impl[g.off + j]), parse(impl[g.off + j + 1])
-            grad = base[1:]
+            grad = base[1:1 + len(g.x1)]
             if p is None or m is None or len(grad) != len(e):
                 run.violation("grad:%s:shape" % sigk, "gradient has the wrong shape for %s" % g.lines[0], rep)
                 continue
@@ -261,10 +588,18 @@ def check(run):
             if not (abs(fdv - an) <= tol * max(1.0, abs(fdv), abs(an))):
                 run.violation("grad:%s:fd" % sigk,
                               "reported gradient along direction %s is %r but the finite difference of dist2 is %r for %s" % (e, an, fdv, g.lines[0]), rep)
+    for g in cgroups:
+        run.count(g.lines[0], g.x1 != g.x2)
+        run.dist("comp:" + g.kind.split(":")[0])
+        oracle_cgroup(g, impl, run)
+    for g in omgroups:
+        run.count(g.lines[0], True)
+        run.dist("opes-merge")
+        oracle_omgroup(g, impl, run)
     for i, l in enumerate(misc):
         run.count(l, True)
         run.dist("misc:" + l.split()[0])
-        bad = oracle_misc(l, impl[moff + i])
+        bad = oracle_obj(l, impl[moff + i]) if l.startswith("OBJ") else oracle_misc(l, impl[moff + i])
         if bad:
             run.violation("misc:" + l.split()[0], bad, {"kind": "unit", "lines": [l], "impl": [impl[moff + i]]})
     run.sample({"group": groups[0].lines, "impl": impl[groups[0].off:groups[0].off + len(groups[0].lines)]})
